@@ -433,7 +433,7 @@ static const char *relclass(const Ctx *x, char *b) {
             if (has_tok(f, "S") && !c->d_huge)
                 p += sprintf(p, (size_t)c->s_len + 1 > c->dmax ? "srclen>=dmax," : "srcfits,");
         }
-        if (c->d_pk == 0 && (f->flags & (F_DSTR | F_QRY))) p += sprintf(p, "dunterm,");
+        if ((c->d_pk == 0 || (c->d_pk == 1 && c->d_pl >= (long)(c->dmax * f->dunit / f->w))) && (f->flags & (F_DSTR | F_QRY))) p += sprintf(p, "dunterm,");
         if (has_tok(f, "k")) p += sprintf(p, (size_t)c->k > c->dmax * f->dunit / f->w ? "k>dmax," : c->k == 0 ? "k0," : "k<=dmax,");
     } else if (has_tok(f, "l") && c->slen == 0) p += sprintf(p, "slen0,");
     if (p > b) p[-1] = 0;
@@ -672,6 +672,7 @@ void gen_generic(int fi) {
             for (long p = 0; p < nel && p <= N + 1; p++) { pri[npri].pk = 1; pri[npri++].pl = p; }
             if (f->flags & F_DSTR) for (long p = 0; p < nel && p <= 3; p++) { pri[npri].pk = 3; pri[npri++].pl = p; }
             if (nel > N + 2) { pri[npri].pk = 1; pri[npri++].pl = nel - 1; pri[npri].pk = 1; pri[npri++].pl = nel - 2; }
+            if (nel >= 1) { pri[npri].pk = 1; pri[npri++].pl = nel; }      /* the whole array holds ordinary characters and no terminator (the dirty fill is no character a classifier accepts) */
             pri[npri].pk = 0; pri[npri++].pl = 0;
         } else {
             pri[npri].pk = 0; pri[npri++].pl = 0;
